@@ -87,27 +87,109 @@ def _cvc5_check(text, timeout_s):
             pass
 
 
+def _refute_by_sampling(text, timeout_ms=8000, tries=4):
+    """last resort for `unknown`: find a model of the hypotheses alone (the last
+    assertion is the negated goal by construction) and evaluate the goal in it."""
+    t0 = time.time()
+    try:
+        asserts = z3.parse_smt2_string(text)
+        if len(asserts) < 1:
+            return "unknown", None, 0.0, ""
+        neg_goal = asserts[-1]
+        hyps = list(asserts)[:-1]
+        import random
+        rnd = random.Random(12345)
+        consts = {}
+
+        def walk(e, seen):
+            if e.get_id() in seen:
+                return
+            seen.add(e.get_id())
+            if z3.is_const(e) and e.decl().kind() == z3.Z3_OP_UNINTERPRETED and z3.is_real(e):
+                consts[e.decl().name()] = e
+            for c in e.children():
+                walk(c, seen)
+        seen = set()
+        for a in asserts:
+            walk(a, seen)
+        free = [c for n, c in sorted(consts.items()) if not n.startswith(('S!', 'C!', 'pi_c'))]
+        # stage 1: pure numeric sampling (no solver): random rationals, unit-circle points for S!/C! pairs
+        bases = sorted(n[2:] for n in consts if n.startswith('S!'))
+        for k in range(300):
+            sub = []
+            for c in free:
+                sub.append((c, z3.RealVal(rnd.randint(-40, 40)) / z3.RealVal(rnd.choice([1, 2, 3, 7]))))
+            for b in bases:
+                t = rnd.randint(-12, 12)
+                q = rnd.choice([1, 2, 3, 5])
+                tt = z3.Q(t, q)
+                S_, C_ = consts.get('S!' + b), consts.get('C!' + b)
+                if S_ is not None:
+                    sub.append((S_, z3.simplify(2 * tt / (1 + tt * tt))))
+                if C_ is not None:
+                    sub.append((C_, z3.simplify((1 - tt * tt) / (1 + tt * tt))))
+            if 'pi_c' in consts:
+                sub.append((consts['pi_c'], z3.RealVal("3.14159265")))
+            ok = True
+            for h in hyps:
+                v = z3.simplify(z3.substitute(h, *sub))
+                if not z3.is_true(v):
+                    ok = False
+                    break
+            if not ok:
+                continue
+            v = z3.simplify(z3.substitute(neg_goal, *sub))
+            if z3.is_true(v):
+                return "sat", {str(a): str(b) for a, b in sub}, time.time() - t0, "numeric sample falsifies the goal"
+        for k in range(tries):
+            for tac in ('qfnra-nlsat', None):
+                sl = z3.Tactic(tac).solver() if tac else z3.Solver()
+                sl.set("timeout", int(timeout_ms))
+                for h in hyps:
+                    sl.add(h)
+                if k > 0:
+                    for c in rnd.sample(free, max(0, len(free) // 2)):
+                        sl.add(c == z3.RealVal(rnd.randint(-50, 50)) / 7)
+                if sl.check() == z3.sat:
+                    m = sl.model()
+                    v = m.eval(neg_goal, model_completion=True)
+                    if z3.is_true(v):
+                        return "sat", _model_dict(m), time.time() - t0, "hypotheses-only model falsifies the goal"
+                    break
+        return "unknown", None, time.time() - t0, "sampling found no falsifying model"
+    except z3.Z3Exception as e:
+        return "unknown", None, time.time() - t0, "z3 exception: %s" % e
+
+
 def decide(job):
     """job = (index, smt2 text, timeout_ms, use_cvc5, tactics) -> result dict"""
     idx, text, timeout_ms, use_cvc5, tactics = job
     attempts = []
-    r, model, secs, reason = _z3_check(text, timeout_ms)
-    attempts.append(("z3", r, round(secs, 3), reason))
+    model = None
     backend = "z3"
-    if r == "unknown":
+    r = "unknown"
+
+    def attempt(name, fn):
+        nonlocal r, model, backend
+        if r != "unknown":
+            return
+        r1, m1, secs, reason = fn()
+        attempts.append((name, r1, round(secs, 3), reason))
+        if r1 != "unknown":
+            r, model, backend = r1, m1, name
+    attempt("z3", lambda: _z3_check(text, min(timeout_ms, 3000)))
+    for tac in tactics or ():
+        attempt("z3:" + tac, lambda: _z3_check(text, min(timeout_ms, 10000), tac))
+    if timeout_ms > 3000:
+        attempt("z3:sampling", lambda: _refute_by_sampling(text))
         for tac in tactics or ():
-            r, model, secs, reason = _z3_check(text, timeout_ms, tac)
-            attempts.append(("z3:" + tac, r, round(secs, 3), reason))
-            if r != "unknown":
-                backend = "z3:" + tac
-                break
-    if r == "unknown" and use_cvc5:
-        r2, _, secs2, reason2 = _cvc5_check(text, timeout_ms / 1000.0)
-        attempts.append(("cvc5", r2, round(secs2, 3), reason2))
-        if r2 != "unknown":
-            r, backend = r2, "cvc5"
-            if r2 == "sat":
-                model = None
+            if timeout_ms > 10000:
+                attempt("z3:" + tac, lambda: _z3_check(text, timeout_ms, tac))
+        attempt("z3", lambda: _z3_check(text, timeout_ms))
+    if use_cvc5:
+        attempt("cvc5", lambda: _cvc5_check(text, timeout_ms / 1000.0))
+    if timeout_ms <= 3000:
+        attempt("z3:sampling", lambda: _refute_by_sampling(text))
     return {"idx": idx, "result": r, "model": model, "backend": backend, "attempts": attempts,
             "seconds": round(sum(a[2] for a in attempts), 3)}
 
